@@ -229,27 +229,62 @@ Definition inbound_scmp_error (e : perr) : res (N * N * bytes) :=
     Ok (PP_CODE_INVALID_PATH_TYPE, trunc 16 (byte_lo CommonHeader_PATH_TYPE_RNG), view)
   end.
 
+(** PacketPolicyError::offending_is_scmp_error: the rejected datagram is itself an SCMP error
+    message (next header SCMP and first payload byte -- the SCMP type -- below the limit).
+    [Gen.Ingress.SCMP_ERROR_SUPPRESS_BELOW] is 0 when the source has no such test. *)
+Definition offending_is_scmp_error (e : perr) : res bool :=
+  match e with
+  | MalformedPacket _ _ => Ok false
+  | InvalidPathType view _ | InvalidSourceAddress view =>
+    hdr <- pkt_header view ;;
+    nh <- hv_next_header hdr ;;
+    if negb (nh =? PROTO_SCMP) then Ok false else
+    p <- pkt_payload view ;;
+    Ok (match p with [] => false | scmp_type :: _ => scmp_type <? SCMP_ERROR_SUPPRESS_BELOW end)
+  end.
+
+(** which arm of [match inbound_datagram_check(..)] is taken and what it produces *)
+Inductive decision :=
+| DDispatch (view : bytes)          (* Ok(view) *)
+| DSuppress                         (* Err(e) if e.offending_is_scmp_error(): logged only *)
+| DReply (scmp : bytes)             (* Err(e): create_scmp_error succeeded *)
+| DEncodeError (e : encode_error).  (* Err(e): "Failed to create SCMP error packet" logged *)
+
+(** the [HandleIncomingPacketResult::Forwarded] arm: [local] is the gateway socket's local IP,
+    [from] the tunnel peer's IP *)
+Definition gateway_decision (local : ipaddr) (datagram : bytes) (from : ipaddr) : outcome decision unit :=
+  match inbound_datagram_check datagram from with
+  | Panic s => Panic s
+  | Ok view => Ok (DDispatch view)
+  | Err e =>
+    match offending_is_scmp_error e with
+    | Panic s => Panic s | Err _ => Panic P_VIEW_ERR
+    | Ok true => Ok DSuppress
+    | Ok false =>
+      match inbound_scmp_error e with
+      | Panic s => Panic s | Err _ => Panic P_VIEW_ERR
+      | Ok (code, pointer, offending) =>
+        (* create_scmp_error(e, local_addr, ScionAddr::new(WILDCARD, from.ip().into()), buf) *)
+        match encode_scmp_reply local from code pointer offending with
+        | Panic s => Panic s
+        | Ok b => Ok (DReply b)
+        | Err ee => Ok (DEncodeError ee)
+        end
+      end
+    end
+  end.
+
 (** the externally visible effects of handling one inbound datagram, in order *)
 Inductive effect :=
 | Dispatched (view : bytes)    (* self.dispatcher.try_dispatch(view) *)
 | Sent (scmp : bytes).         (* snaptun_srv.handle_outgoing_packet(target_buf, from): back into the tunnel *)
 
-(** the [HandleIncomingPacketResult::Forwarded] arm: [local] is the gateway socket's local IP,
-    [from] the tunnel peer's IP.  An encoding failure of the reply is logged and produces no
-    effect. *)
-Definition gateway_inbound (local : ipaddr) (datagram : bytes) (from : ipaddr) : outcome (list effect) unit :=
-  match inbound_datagram_check datagram from with
-  | Panic s => Panic s
-  | Ok view => Ok [Dispatched view]
-  | Err e =>
-    match inbound_scmp_error e with
-    | Panic s => Panic s | Err _ => Panic P_VIEW_ERR
-    | Ok (code, pointer, offending) =>
-      (* create_scmp_error(e, local_addr, ScionAddr::new(WILDCARD, from.ip().into()), buf) *)
-      match encode_scmp_reply local from code pointer offending with
-      | Panic s => Panic s
-      | Ok b => Ok [Sent b]
-      | Err _ => Ok []
-      end
-    end
+Definition decision_effects (x : decision) : list effect :=
+  match x with
+  | DDispatch v => [Dispatched v]
+  | DReply b => [Sent b]
+  | DSuppress | DEncodeError _ => []
   end.
+
+Definition gateway_inbound (local : ipaddr) (datagram : bytes) (from : ipaddr) : outcome (list effect) unit :=
+  x <- gateway_decision local datagram from ;; Ok (decision_effects x).
